@@ -67,3 +67,32 @@ func VerifC20NewSession(cfg ClusterConfig) (*Session, error) {
 	cfg.disableControlConn = true
 	return NewSession(cfg)
 }
+
+// VerifC20ResolveContactPoints is addrsToHosts (which calls hostInfo for every contact point) with the
+// package variable hostLookupPreferV4 (read from GOCQL_HOST_LOOKUP_PREFER_V4 once, at package
+// initialisation) set to preferV4 for the duration of the call.
+func VerifC20ResolveContactPoints(addrs []string, defaultPort int, preferV4 bool) ([]*HostInfo, error) {
+	old := hostLookupPreferV4
+	hostLookupPreferV4 = preferV4
+	defer func() { hostLookupPreferV4 = old }()
+	return addrsToHosts(addrs, defaultPort, nopLogger{})
+}
+
+// VerifC20ConnectHost is VerifC20Connect for a HostInfo obtained from VerifC20ResolveContactPoints.
+func VerifC20ConnectHost(ctx context.Context, cfg *ClusterConfig, host *HostInfo) (bool, error) {
+	s := &Session{cfg: *cfg, logger: cfg.logger()}
+	connCfg, err := connConfig(&s.cfg)
+	if err != nil {
+		return false, err
+	}
+	s.connCfg = connCfg
+	conn, err := s.dial(ctx, host, connCfg, connErrorHandlerFn(func(*Conn, error, bool) {}))
+	if err != nil {
+		return false, err
+	}
+	conn.Close()
+	return true, nil
+}
+
+// VerifC20PreferV4 reports hostLookupPreferV4 as package initialisation set it from the environment.
+func VerifC20PreferV4() bool { return hostLookupPreferV4 }
